@@ -59,7 +59,7 @@ def build_fixed(rng, *, nsectors: int, legacy: bool = False, tag: int = 1, kind:
 def build_dynamic(rng, *, block_size: int, nblocks: int, tail_cut_sectors: int = 0, states=None,
                   placement: str = "shuffle", tag: int = 1, kind: int = 0, bitmaps: str = "ones",
                   header_off: int = 512, table_gap: int = 0, extra_entries: int = 0, far_sector: int = 0, orig_size=None, uid: bytes | None = None,
-                  table_place: str = "front", stale_copy: bool = False, creator: bytes | None = None):
+                  table_place: str = "front", stale_copy: bool = False, creator: bytes | None = None, odd_bytes: int = 0):
     """states[i] in {'A','U'}; bitmaps in ones|random|zeros (data under 0 bits is stored as zeros).
     table_place: front (header, BAT, blocks), behind (header, blocks, BAT) or middle (BAT between the blocks): all
     offsets in the format are absolute, the table may sit anywhere."""
@@ -121,6 +121,9 @@ def build_dynamic(rng, *, block_size: int, nblocks: int, tail_cut_sectors: int =
             pos[j] = top
     uid = uid or bytes(rng.randrange(256) for _ in range(16))
     sf = SparseFile()
+    if odd_bytes:
+        # a current size that ends inside a sector (the field counts bytes): the disk ends there
+        size -= odd_bytes
     ft = footer(size, header_off, 3, uid, orig_size=orig_size, temporary=rng.random() < 0.3, info_rng=rng, force_creator=creator)
     if stale_copy:
         # the copy at the start of the file was not rewritten when the disk was last resized / re-identified: only the
